@@ -29,6 +29,10 @@ func c16Corpus() []namedHist {
 		// a finalisation is made among the surviving leaves only
 		{"choice-after-finalisation", 0, []op{add(1, 0, P, 0), add(2, 1, P, 0), add(3, 2, P, 0), add(4, 0, S, 0), add(5, 4, S, 0),
 			add(6, 5, S, 1), add(7, 5, S, 0), fin(5), add(8, 6, P, 2), add(9, 7, S, 0), add(10, 9, S, 0)}},
+		// a refused block (valid parent and number, no usable BABE pre-digest) below the best leaf must not become best
+		{"refused-block-must-not-become-best", 0, []op{add(1, 0, P, 0), add(2, 1, P, 0), add(3, 0, S, 0), bad("no-digest", 70, 2),
+			bad("first-digest-not-preruntime", 71, 2), bad("malformed-predigest", 72, 3), bad("no-digest", 73, 0), add(4, 3, S, 1), bad("malformed-predigest", 74, 4),
+			fin(3), bad("no-digest", 75, 4), add(5, 4, P, 0)}},
 		{"root-only", 0, []op{bad("prune-root", 0, 0)}},
 		{"chain-then-finalise-tip", 0, []op{add(1, 0, P, 0), add(2, 1, S, 0), fin(2)}},
 	}
@@ -44,6 +48,8 @@ func c16Floors(r *vcommon.Run) {
 	r.Floor("insertion_orders", 1000)
 	r.Floor("trees_with_several_orders", 100)
 	r.Floor("best_checks_after_finalisation", 300)
+	r.Floor("refused_adds", 500)
+	r.Floor("refused_adds_below_leaf", 200)
 }
 
 // marked tree: shape + per-node mark and arrival; the block hashes depend on
@@ -104,6 +110,21 @@ func checkOrders(c *vcommon.Case, mt *markedTree, orders [][]int, pruneOrders in
 		if e.viol > 0 {
 			return
 		}
+		if oi < 2 {
+			// additions that must be refused: below the current best leaf (a trace would outgrow it) and elsewhere
+			best := e.lastBest
+			for i, kind := range badDigestKinds {
+				e.exec(bad(kind, n+20+i, e.idOf(best)))
+				e.exec(bad(kind, n+30+i, (oi+i)%n))
+			}
+			if e.viol > 0 {
+				return
+			}
+			if e.lastBest != best {
+				e.violation("refused-add-changed-best", "refused additions changed BestBlockHash")
+				return
+			}
+		}
 		if oi == 0 {
 			first, firstOrder = e.lastBest, ord
 		} else {
@@ -126,6 +147,7 @@ func checkOrders(c *vcommon.Case, mt *markedTree, orders [][]int, pruneOrders in
 			c.Count("best_checks_after_finalisation", 1)
 			e.checkAdds = true
 			// new blocks after the finalisation: one below the new root, one below a surviving leaf
+			e.exec(bad(badDigestKinds[(f+oi)%3], n+40, e.idOf(e.lastBest)))
 			e.exec(add(n, f, (f+oi)%3, (f+2*oi)%3))
 			c.Count("best_checks_after_finalisation", 1)
 			ls := e.m.leaves()
